@@ -6,7 +6,7 @@ Import ListNotations.
 Section P.
 Variable K : Type.
 Variable leb : K -> K -> bool.
-Variable hs_of : nat -> list (handler K).
+Variable hs_of : nat -> nat -> list (handler K).
 Hypothesis leb_total : forall a b, leb a b = true \/ leb b a = true.
 Hypothesis leb_trans : forall a b c, leb a b = true -> leb b c = true -> leb a c = true.
 
@@ -350,14 +350,14 @@ Proof. destruct ctx as [[e h]|]; repeat constructor. Qed.
 Lemma qinv_step : forall s s', qinv s -> step s = Some s' -> qinv s'.
 Proof.
   intros s s' I H. unfold DispatchOrder.step in H.
-  destruct (stack s) as [|[ctx [|[n p md| | | |fs] acts]| |x rem chk] k] eqn:Hstk; try discriminate.
+  destruct (stack s) as [|[ctx [|[n p md cs| | | |fs] acts]| |x rem chk] k] eqn:Hstk; try discriminate.
   - (* body returns *)
     inversion H; subst; clear H.
     eapply qinv_quiet with (t := match ctx with Some (e, h) => [TRet e h] | None => [] end);
       eauto; try reflexivity. apply quiet_ret.
   - (* fire *)
     inversion H; subst; clear H. destruct I as [B R N L C].
-    set (x := {| ikey := p; ictr := counter s; iname := n; imode := md |}) in *.
+    set (x := {| ikey := p; ictr := counter s; iname := n; imode := md; ichans := cs |}) in *.
     assert (P : Permutation ((fifo s ++ [x]) ++ heap s ++ disps (trace s))
                             ((fifo s ++ heap s ++ disps (trace s)) ++ [x])).
     { rewrite <- !app_assoc. apply Permutation_app_head. rewrite (app_assoc (heap s)).
@@ -531,7 +531,7 @@ Qed.
 Lemma wf_step : forall s s', wfstack (stack s) -> step s = Some s' -> wfstack (stack s').
 Proof.
   intros s s' W H. unfold DispatchOrder.step in H.
-  destruct (stack s) as [|[ctx [|[n p md| | | |fs] acts]| |x rem chk] k] eqn:Hstk; try discriminate.
+  destruct (stack s) as [|[ctx [|[n p md cs| | | |fs] acts]| |x rem chk] k] eqn:Hstk; try discriminate.
   - inversion H; subst; clear H. simpl. apply wfstack_body in W. inversion W; subst.
     + left; auto.
     + right; right; right. eauto 8.
@@ -715,14 +715,14 @@ Qed.
 Lemma hinv_step : forall s s', qinv s -> wfstack (stack s) -> hinv s -> step s = Some s' -> hinv s'.
 Proof.
   intros s s' Q W I H. unfold DispatchOrder.step in H.
-  destruct (stack s) as [|[ctx [|[n p md| | | |fs] acts]| |x rem chk] k] eqn:Hstk; try discriminate.
+  destruct (stack s) as [|[ctx [|[n p md cs| | | |fs] acts]| |x rem chk] k] eqn:Hstk; try discriminate.
   - (* body returns *)
     inversion H; subst; clear H.
     eapply hinv_plain with (t := match ctx with Some (e, h) => [TRet e h] | None => [] end);
       eauto; try reflexivity; try apply plain_ret; rewrite Hstk; simpl; auto.
   - (* fire *)
     inversion H; subst; clear H.
-    eapply hinv_plain with (t := [TFire {| ikey := p; ictr := counter s; iname := n; imode := md |}]);
+    eapply hinv_plain with (t := [TFire {| ikey := p; ictr := counter s; iname := n; imode := md; ichans := cs |}]);
       eauto; try reflexivity; try (repeat constructor); rewrite Hstk; simpl; auto.
     intros x rem chk [E|E]; [discriminate|auto].
   - (* flush *)
@@ -977,12 +977,12 @@ Proof.
     - intros e h I. rewrite Et in *. apply in_app_iff in I. destruct I as [I|I].
       + apply invs_mono. auto.
       + exfalso. eapply Nt; eauto. }
-  destruct (stack s) as [|[ctx [|[n p md| | | |fs] acts]| |x rem chk] k] eqn:Hstk; try discriminate.
+  destruct (stack s) as [|[ctx [|[n p md cs| | | |fs] acts]| |x rem chk] k] eqn:Hstk; try discriminate.
   - inversion H; subst; clear H.
     apply Keep with (t := match ctx with Some (e, h) => [TRet e h] | None => [] end);
       [reflexivity|destruct ctx as [[e h]|]; nostop_tac|frames_tac].
   - inversion H; subst; clear H.
-    apply Keep with (t := [TFire {| ikey := p; ictr := counter s; iname := n; imode := md |}]);
+    apply Keep with (t := [TFire {| ikey := p; ictr := counter s; iname := n; imode := md; ichans := cs |}]);
       [reflexivity|nostop_tac|frames_tac].
   - destruct (batch s =? 0); inversion H; subst; clear H.
     + apply Keep with (t := [TFlushB; TSnap]); [reflexivity|nostop_tac|frames_tac].
@@ -1062,7 +1062,7 @@ Lemma flush_count_step : forall s s', qinv s -> step s = Some s' ->
   loops (stack s) + nE (trace s) = nB (trace s) -> loops (stack s') + nE (trace s') = nB (trace s').
 Proof.
   intros s s' Q H. unfold DispatchOrder.step in H.
-  destruct (stack s) as [|[ctx [|[n p md| | | |fs] acts]| |x rem chk] k] eqn:Hstk; try discriminate.
+  destruct (stack s) as [|[ctx [|[n p md cs| | | |fs] acts]| |x rem chk] k] eqn:Hstk; try discriminate.
   - inversion H; subst; clear H. destruct ctx as [[e h]|]; unfold loops, nB, nE; simpl;
       rewrite ?filter_app, ?app_length; simpl; lia.
   - inversion H; subst; clear H. unfold loops, nB, nE; simpl; rewrite ?filter_app, ?app_length; simpl; lia.
@@ -1093,6 +1093,54 @@ Proof.
   pose proof (depth_le_loops _ _ R). lia.
 Qed.
 
+(* ---------------------------------------------------------------- events delivered on several channels *)
+Lemma is_seen_in : forall i l, existsb (Nat.eqb i) l = true <-> In i l.
+Proof.
+  intros. rewrite existsb_exists. split.
+  - intros (y&I&E). apply Nat.eqb_eq in E. subst. auto.
+  - intro I. exists i. split; auto. apply Nat.eqb_refl.
+Qed.
+
+Lemma dedup_spec : forall (l : list (handler K)) seen,
+  NoDup (map hid (dedup K seen l)) /\
+  (forall h, In h (dedup K seen l) -> In h l /\ ~ In (hid h) seen) /\
+  (forall h, In h l -> In (hid h) seen \/ In (hid h) (map hid (dedup K seen l))).
+Proof.
+  induction l as [|h r IH]; intro seen; simpl.
+  - split; [constructor|split; [intros h []|intros h []]].
+  - destruct (existsb (Nat.eqb (hid h)) seen) eqn:E.
+    + apply is_seen_in in E. destruct (IH seen) as (A&B&C). repeat split; auto.
+      * destruct (B _ H); auto.
+      * destruct (B _ H); auto.
+      * intros h0 [<-|I]; auto.
+    + assert (N : ~ In (hid h) seen) by (intro F; apply is_seen_in in F; congruence).
+      destruct (IH (hid h :: seen)) as (A&B&C). repeat split.
+      * simpl. constructor; auto. intro F. apply in_map_iff in F. destruct F as (h'&Eh&Ih).
+        destruct (B _ Ih) as (_&Nh). apply Nh. left. auto.
+      * destruct H as [<-|I]; auto. destruct (B _ I); auto.
+      * destruct H as [<-|I]; auto. destruct (B _ I) as (_&Nh). intro F. apply Nh. right. auto.
+      * intros h0 [<-|I]; [right; left; auto|].
+        destruct (C _ I) as [[F|F]|F]; [right; left; auto|left; auto|right; right; auto].
+Qed.
+
+(* the handler list of a (not cancelled) event: every handler that matches one of its channels, once,
+   in descending priority order *)
+Theorem handlers_union : forall x, imode x <> MCancel ->
+  let L := handlers_for K leb hs_of x in
+  StronglySorted hge L /\ NoDup (map hid L) /\
+  (forall h, In h L -> In h (handlers_chain K hs_of x)) /\
+  (forall h, In h (handlers_chain K hs_of x) -> In (hid h) (map hid L)).
+Proof.
+  intros x Nc L. unfold L, handlers_for. destruct (imode x); simpl; try congruence;
+    destruct (dedup_spec (handlers_chain K hs_of x) []) as (A&B&C);
+    pose proof (sort_desc_perm (dedup K [] (handlers_chain K hs_of x))) as P;
+    (repeat split;
+     [apply sort_desc_sorted
+     |eapply Permutation_NoDup; [symmetry; apply Permutation_map; exact P|exact A]
+     |intros h I; apply (B h); eapply Permutation_in; eauto
+     |intros h I; destruct (C h I) as [[]|F]; eapply Permutation_in; [symmetry; apply Permutation_map; exact P|exact F]]).
+Qed.
+
 (* ---------------------------------------------------------------- events stopped before their dispatch
    `if event.stopped: break` is only looked at after a handler returned, so an event on which stop() was called
    from outside before it was dispatched still gets its first (highest-priority) handler, and only that one *)
@@ -1119,12 +1167,12 @@ Proof.
     - intros x rem I. rewrite Et, invs_app, (noinv_invs _ _ Nt), app_nil_r. eauto.
     - intros x I M. rewrite Et, disps_app, Dt, app_nil_r in I.
       rewrite Et, invs_app, (noinv_invs _ _ Nt), app_nil_r. auto. }
-  destruct (stack s) as [|[ctx [|[n p md| | | |fs] acts]| |x rem chk] k] eqn:Hstk; try discriminate.
+  destruct (stack s) as [|[ctx [|[n p md cs| | | |fs] acts]| |x rem chk] k] eqn:Hstk; try discriminate.
   - inversion H; subst; clear H.
     apply Keep with (t := match ctx with Some (e, h) => [TRet e h] | None => [] end);
       [reflexivity|destruct ctx as [[e h]|]; noinv_tac|destruct ctx as [[e h]|]; reflexivity|sub_tac].
   - inversion H; subst; clear H.
-    apply Keep with (t := [TFire {| ikey := p; ictr := counter s; iname := n; imode := md |}]);
+    apply Keep with (t := [TFire {| ikey := p; ictr := counter s; iname := n; imode := md; ichans := cs |}]);
       [reflexivity|noinv_tac|reflexivity|sub_tac].
   - destruct (batch s =? 0); inversion H; subst; clear H.
     + apply Keep with (t := [TFlushB; TSnap]); [reflexivity|noinv_tac|reflexivity|sub_tac].
@@ -1186,14 +1234,14 @@ Proof.
 Qed.
 
 (* fire() only appends to the FIFO: no handler runs, no frame is pushed, heap and batch are untouched *)
-Lemma fire_only_queues : forall (s : state) ctx n p md acts k,
-  stack s = FBody ctx (AFire n p md :: acts) :: k ->
+Lemma fire_only_queues : forall (s : state) ctx n p md cs acts k,
+  stack s = FBody ctx (AFire n p md cs :: acts) :: k ->
   exists s', step s = Some s' /\
-    let x := Build_item p (counter s) n md in
+    let x := Build_item p (counter s) n md cs in
     fifo s' = fifo s ++ [x] /\ heap s' = heap s /\ batch s' = batch s /\ stopped s' = stopped s /\
     stack s' = FBody ctx acts :: k /\ trace s' = trace s ++ [TFire x].
 Proof.
-  intros s ctx n p md acts k H. unfold DispatchOrder.step. rewrite H. eexists. split. reflexivity. simpl. repeat split.
+  intros s ctx n p md cs acts k H. unfold DispatchOrder.step. rewrite H. eexists. split. reflexivity. simpl. repeat split.
 Qed.
 
 End P.
@@ -1208,6 +1256,6 @@ Lemma handlers_sorted : forall (K : Type) (leb : K -> K -> bool), Total K leb ->
   StronglySorted (fun a b => leb (hprio b) (hprio a) = true) (sort_desc K leb l).
 Proof. intros K leb T R l. split; [apply sort_desc_perm|apply (sort_desc_sorted K leb T R)]. Qed.
 
-Lemma run_init_reach : forall (K : Type) (leb : K -> K -> bool) (hs_of : nat -> list (handler K)) prog n,
+Lemma run_init_reach : forall (K : Type) (leb : K -> K -> bool) (hs_of : nat -> nat -> list (handler K)) prog n,
   reach K leb hs_of prog (run K leb hs_of n (init prog)).
 Proof. intros. apply run_reach. constructor. Qed.
